@@ -467,7 +467,142 @@ class Inliner:
             return None
         return self._resolve(call)
 
+    def _unstar(self, s):
+        """`f(*g(x))` as the whole value of a statement, f a helper with n
+        positional parameters: `__star = g(x); f(__star[0], .., __star[n-1])`
+        (the call raises TypeError unless g returns exactly n items, which
+        the analysed code takes for granted as well)."""
+        v = getattr(s, "value", None) if isinstance(
+            s, (ast.Return, ast.Assign, ast.Expr)) else None
+        if not isinstance(v, ast.Call) or v.keywords:
+            return None
+        stars = [a for a in v.args if isinstance(a, ast.Starred)]
+        if len(stars) != 1 or not isinstance(stars[0].value, ast.Call):
+            return None
+        if any(not isinstance(a, (ast.Name, ast.Constant, ast.Starred))
+               for a in v.args):
+            return None
+        r = self._resolve(v)
+        if r is None:
+            return None
+        how, name, fn = r
+        npar = len(fn.args.args) - (1 if how.startswith("method") else 0)
+        if fn.args.vararg or fn.args.kwarg or fn.args.defaults:
+            return None
+        n = npar - (len(v.args) - 1)
+        if n < 1 or n > 8:
+            return None
+        self.n += 1
+        tmp = "__star_%d" % self.n
+        pre = ast.copy_location(ast.Assign(
+            [ast.Name(tmp, ast.Store())], stars[0].value), s)
+        new_args = []
+        for a in v.args:
+            if a is stars[0]:
+                new_args += [ast.Subscript(ast.Name(tmp, ast.Load()),
+                                           ast.Constant(i), ast.Load())
+                             for i in range(n)]
+            else:
+                new_args.append(a)
+        s2 = acopy(s)
+        s2.value = ast.copy_location(ast.Call(v.func, new_args, []), v)
+        ast.fix_missing_locations(pre)
+        ast.fix_missing_locations(s2)
+        return [pre, s2]
+
+    def _listgen(self, s, stack, depth):
+        """`x = list(G(args))` / `return list(G(args))` with G a generator
+        helper (plain yields only): the accumulation it abbreviates,
+        `acc = []; <body of G with `yield v` -> acc.append(v)>; x = acc`."""
+        v = getattr(s, "value", None) if isinstance(
+            s, (ast.Return, ast.Assign)) else None
+        if not (isinstance(v, ast.Call) and isinstance(v.func, ast.Name)
+                and v.func.id in ("list", "tuple") and len(v.args) == 1 and
+                not v.keywords and isinstance(v.args[0], ast.Call)):
+            return None
+        call = v.args[0]
+        r = self._resolve(call)
+        if r is None or depth >= self.max_depth:
+            return None
+        how, name, fn = r
+        if name in self.primitives or name in stack or isinstance(
+                fn, ast.AsyncFunctionDef) or not self._is_gen(fn) or \
+                not self._inlinable(fn):
+            return None
+        for n in _walk_fn(fn):
+            if isinstance(n, ast.YieldFrom):
+                return None
+            if isinstance(n, ast.Return) and n.value is not None:
+                return None
+        ys = [n for n in _walk_fn(fn) if isinstance(n, ast.Yield)]
+        # every yield must be a whole expression statement
+        stmts_y = [n for n in _walk_fn(fn) if isinstance(n, ast.Expr) and
+                   isinstance(n.value, ast.Yield)]
+        if len(ys) != len(stmts_y) or any(y.value is None for y in ys):
+            return None
+        params = [a.arg for a in fn.args.args]
+        if how.startswith("method"):
+            params = params[1:]
+        if len(call.args) != len(params) or call.keywords or any(
+                isinstance(a, ast.Starred) for a in call.args) or \
+                fn.args.defaults or fn.args.vararg or fn.args.kwarg:
+            return None
+        self.n += 1
+        suffix = "__%s_%d" % (name.strip("_"), self.n)
+        acc = "__acc" + suffix
+        body = acopy(fn.body)
+        if body and isinstance(body[0], ast.Expr) and isinstance(
+                body[0].value, ast.Constant) and isinstance(
+                    body[0].value.value, str):
+            body = body[1:]
+        locals_ = set(params)
+        for st in body:
+            for n in _walk_stmts(st):
+                if isinstance(n, ast.Name) and isinstance(
+                        n.ctx, (ast.Store, ast.Del)):
+                    locals_.add(n.id)
+        ren = _Renamer(locals_, suffix)
+        body = [ren.visit(st) for st in body]
+
+        class Y(ast.NodeTransformer):
+            def visit_Expr(self, n):
+                if isinstance(n.value, ast.Yield):
+                    return ast.copy_location(ast.Expr(ast.Call(
+                        ast.Attribute(ast.Name(acc, ast.Load()), "append",
+                                      ast.Load()), [n.value.value], [])), n)
+                return n
+
+            def visit_Return(self, n):
+                return n
+        body = [Y().visit(st) for st in body]
+        if any(isinstance(n, ast.Return) for st in body
+               for n in _walk_stmts(st)):
+            return None           # early exit of the generator: not read
+        pre = [ast.Assign([ast.Name(acc, ast.Store())], ast.List([],
+                                                                 ast.Load()))]
+        for p_, a in zip(params, call.args):
+            b = ast.Assign([ast.Name(p_ + suffix, ast.Store())], acopy(a))
+            b._inline_param = True
+            pre.append(b)
+        s2 = acopy(s)
+        res = ast.Name(acc, ast.Load())
+        s2.value = res if v.func.id == "list" else ast.Call(
+            ast.Name("tuple", ast.Load()), [res], [])
+        out = pre + self._block(body, stack + (name,), depth + 1) + [s2]
+        for x in out:
+            ast.copy_location(x, s)
+            ast.fix_missing_locations(x)
+        self.inlined.append(name)
+        return out
+
     def _stmt(self, s, stack, depth):
+        lg = self._listgen(s, stack, depth)
+        if lg is not None:
+            return lg
+        us = self._unstar(s)
+        if us is not None:
+            return self._stmt(us[0], stack, depth) + self._stmt(
+                us[1], stack, depth)
         if isinstance(s, (ast.With, ast.AsyncWith)):
             out = self._inline_cm(s, stack, depth)
             if out is not None:
